@@ -488,8 +488,55 @@ func (immunityComp) Gen(rng *rand.Rand, tier string) [][]string {
 		}
 		hs = append(hs, h)
 	}
+	hs = append(hs, skewedImmunizeBatches()...)
 	if tier == "thorough" {
 		hs = append(hs, exhaustiveImmunity()...)
+	}
+	return hs
+}
+
+// skewedImmunizeBatches: one ImmunizeKeys call whose keys fall almost all into ONE chunk (plus one key of the next chunk), on
+// caches of several chunks; afterwards both chunks are filled until they evict: every key of the batch must have been
+// routed to its own chunk and be protected there (present ones now, absent ones once they are added)
+func skewedImmunizeBatches() [][]string {
+	var hs [][]string
+	for _, chunks := range []int{2, 4, 16} {
+		buckets := make([][]string, chunks)
+		for x := 0; x < 8192; x++ {
+			k := []byte{byte(0xc0 + x>>8), byte(x)}
+			c := int(fnv32go(string(k)) % uint32(chunks))
+			buckets[c] = append(buckets[c], hx(k))
+		}
+		for variant := 0; variant < 2; variant++ {
+			for c := 0; c < chunks-1 && c < 3; c++ {
+				a, b := buckets[c], buckets[c+1]
+				nSkew := 2*((9)/chunks+1) + 2 // more than the share a per-chunk pre-allocation would reserve for a batch of 9
+				if nSkew > 8 {
+					nSkew = 8
+				}
+				h := []string{fmt.Sprintf("begin immunity chunks=%d items=%d bytes=100000 n=%d cross=0", chunks, chunks*12, chunks)}
+				h = append(h, fmt.Sprintf("hoa %s aa01 5", a[0]), fmt.Sprintf("hoa %s aa02 5", a[1]), fmt.Sprintf("hoa %s bb01 5", b[0]))
+				batch := append([]string{}, a[:nSkew]...)
+				if variant == 0 {
+					batch = append(batch, b[0])
+				} else {
+					batch = append([]string{b[0]}, batch...)
+				}
+				h = append(h, "imm "+strings.Join(batch, ","))
+				// the future-immune keys of the batch arrive
+				for i := 2; i < nSkew; i++ {
+					h = append(h, fmt.Sprintf("hoa %s aa%02x 5", a[i], i+1))
+				}
+				// fill both chunks well beyond their capacity
+				for i := 0; i < 16; i++ {
+					h = append(h, fmt.Sprintf("hoa %s cc%02x 5", b[1+i], i), fmt.Sprintf("hoa %s dd%02x 5", a[nSkew+i], i))
+				}
+				for _, k := range batch {
+					h = append(h, "get "+k)
+				}
+				hs = append(hs, h)
+			}
+		}
 	}
 	return hs
 }
